@@ -16,7 +16,7 @@ import (
 
 func init() {
 	mon.Register(&mon.Prop{
-		ID: "C08", Race: true, Level: "exploration",
+		ID: "C08", StallDetector: true, Race: true, Level: "exploration",
 		Rule: "cold start: in every child process the first use of the package is one goroutine per default table requesting it at the same moment; counting clause: coding sequences of length 0..10^5 in any case, lengths not divisible by 3, non-ACGT letters, on deep copies of all 25 tables; history clause: every operation sequence up to length 4 over {request default table, re-weight, add, compromise, serialise/parse} on two table ids with two coding sequences (complete DFS) plus random histories of length 5..8 on three ids, every live table read back after every step and compared with a value-semantics model (and, on mismatch, with the defect model of the listed known finding); concurrent clause: 16 goroutines re-weighting tables with pairwise different ids per round under the race detector; non-trivial = history with >= 2 steps, or a coding sequence of >= 2 codons; distinct by hash of the history / sequence",
 		Assumptions: []string{
 			"value-semantics model: get, parse(serialise), add, compromise create independent tables; re-weight returns a handle on the receiver's table with weights = in-frame case-insensitive counts; the receiver handle itself is not inspected again (the method documents in-place mutation)",
